@@ -163,7 +163,11 @@ class HSTRPDatagramProtocol(DatagramProtocol, LoggingTrait):
         elif pdu.pkt_type.is_reject:
             was_handled = True
             self.log_warning(f"peer REJECT-ed our request S/N:{pdu.sn}")
-            self.log_warning(repr(pdu))
+            try:
+                self.log_warning(repr(pdu))
+            except Exception as e:
+                # informational rendering only, must not break datagram handling
+                self.log_warning(f"rejected message not rendered: {e}")
 
         if not was_confirmed and not pdu.pkt_type.is_ack:
             # confirm all hstrp incoming messages, that are not confirmations
